@@ -9889,6 +9889,7 @@ class Parser:
 
         options = []
         while self._curr and not self._match(TokenType.R_PAREN, advance=False):
+            index = self._index
             option = self._parse_var(any_token=True)
             prev = self._prev.text.upper()
 
@@ -9920,6 +9921,11 @@ class Parser:
 
             if sep:
                 self._match(sep)
+
+            if self._index == index:
+                # Nothing was consumed (e.g. a stray reserved token): without this the loop never ends
+                self.raise_error("Unable to parse option")
+                break
 
         return options
 
